@@ -105,7 +105,9 @@ Print Assumptions C04_valid_reader_unread_prefix.
      k <= length (text_of le (body s))     (the cut is in front of the control record)  not accepted:
                                            C04_valid_reader_truncation_before_control;
      inside the control record              not accepted, or the same protected values (this theorem;
-                                           which one depends on the columns that were cut off);
+                                           which one depends on the columns that were cut off); at or
+                                           behind the column from which the record is blank: the SAME
+                                           tree, C04_valid_reader_truncation_blank_tail;
      behind the control record              the SAME tree, except one offset per filler line:
                                            C04_valid_reader_truncation_filler below. *)
 Theorem C04_valid_reader_truncation : forall s le k g0,
@@ -128,6 +130,18 @@ Theorem C04_valid_reader_truncation_filler : forall s le g0 n c,
   = if c =? 1 then None else Some g0.
 Proof. exact c04_valid_reader_truncation_filler. Qed.
 Print Assumptions C04_valid_reader_truncation_filler.
+
+(* inside the control record: an ASCII control record (what the library writes) that is blank from
+   column b on (b = 55, for ADV 71, for a record written through its layout: C04_truncation_blank_tail),
+   cut after c >= b characters: the padded line IS the control record and the very same tree is
+   returned *)
+Theorem C04_valid_reader_truncation_blank_tail : forall s le g0 b c,
+  le_ok le -> file_typed s = true -> utf8_records s -> bridge_okb LT s = true ->
+  accepts LT RT AT (write le s) = Some g0 ->
+  asciib (f_ctl s) = true -> skipn b (f_ctl s) = repeat sp (94 - b) -> b <= c <= 94 -> 1 <= c ->
+  accepts LT RT AT (firstn (length (text_of le (body s)) + c) (write le s)) = Some g0.
+Proof. exact c04_valid_reader_truncation_blank_tail. Qed.
+Print Assumptions C04_valid_reader_truncation_blank_tail.
 
 (* the reason of the verdict for the lines of every proper byte prefix: no control line / a line of
    U+FFFD / a second control record / the records and padding / the control record cut *)
@@ -180,3 +194,8 @@ Theorem C04_valid_text_full_example_truncation :
   /\ (map (fun k => accept_code LT RT AT (firstn k (write LF_b vx_adv))) [95 * 3 + 7; 95 * 9 + 30; 95 * 9 + 80; 95 * 10 - 1]
       = [1; 3; 0; 0] /\ length (record_lines vx_adv) = 10 /\ length (write LF_b vx_adv) = 950).
 Proof. exact (conj vx_filler_by_theorem (conj vx_iat_filler_by_theorem (conj vx_iat_truncated vx_adv_truncated))). Qed.
+
+Theorem C04_valid_text_full_example_blank_tail :
+  exists g0, accepts LT RT AT (write CRLF_b vx) = Some g0
+    /\ accepts LT RT AT (firstn (length (text_of CRLF_b (body vx)) + 60) (write CRLF_b vx)) = Some g0.
+Proof. exact vx_blank_tail_by_theorem. Qed.
